@@ -493,6 +493,32 @@ func evalAttemptModeB(src string, opts, optsB []risor.Option, repl map[object.Ob
 				}
 			}
 		}
+	} else if mode == "precompiled" {
+		// the host compiled the script earlier under the DEFAULT configuration (the compiler knows every default
+		// name) and runs the code object on a VM that served the default configuration before - under this
+		// configuration, which leaves NO global at all (opts[0], the host's own globals, is left out too)
+		cfgD := risor.NewConfig(append([]risor.Option{risor.WithOS(vos)}, baseOptions()...)...)
+		prog, perr := parser.Parse(ctx, src)
+		if perr != nil {
+			return N{"ok": false, "l": strings.SplitN(perr.Error(), "\n", 2)[0], "r": ""}
+		}
+		code, cerr := compiler.Compile(prog, cfgD.CompilerOpts()...)
+		if cerr != nil {
+			return N{"ok": false, "l": strings.SplitN(cerr.Error(), "\n", 2)[0], "r": ""}
+		}
+		machine, merr := vm.NewEmpty()
+		if merr != nil {
+			return N{"ok": false, "l": "harness: " + merr.Error(), "r": ""}
+		}
+		warm := append([]risor.Option{risor.WithOS(vos), risor.WithVM(machine)}, baseOptions()...)
+		if _, werr := risor.Eval(ctx, "import os\nimport math\nimport strings\nos.getpid() + math.abs(1)", warm...); werr != nil {
+			return N{"ok": false, "l": "harness: warm-up failed: " + werr.Error(), "r": ""}
+		}
+		v, err = risor.EvalCode(ctx, code, append([]risor.Option{risor.WithOS(vos), risor.WithVM(machine)}, opts[1:]...)...)
+		if err == nil && v == nil {
+			// the name the compiler knew has an EMPTY slot in this run: the script obtained no object at all
+			return N{"ok": false, "l": "empty slot", "r": ""}
+		}
 	} else if mode == "keptconfig" {
 		// the host keeps Config values: this configuration is initialised, then a second, more permissive one that
 		// uses the SAME replacement objects (optsB: the overrides only), then the script runs under the first
@@ -607,6 +633,9 @@ func caseWorker(req N) (resp N) {
 			}
 			if st == "import" || st == "from" || st == "dot" {
 				modes = append(modes, "busyvm")
+			}
+			if _, host := hostGlobals()[path[0]]; nodefaults && len(req["ov"].([]any)) == 0 && !host {
+				modes = append(modes, "precompiled")
 			}
 			for _, mode := range modes {
 				o, repl := build()
